@@ -267,7 +267,7 @@ def lookup_behaviour(ctx: Ctx) -> None:
             top = max(pr.by_id)
             lows = sorted({1, 5, 7, 8, 25, 36, 37, top})   # hello, disconnect, ping, pong, a state, time request/response, the last id
             if framing == "plain":
-                undeclared = [0, top + 1, top + 2, 200, 255] + [b + k for b in (256, 512, 0x4000, 0x8000, 0xFF00, 1 << 16, 1 << 17, 1 << 21, 1 << 24, 1 << 28, 1 << 31) for k in lows] \
+                undeclared = [0, top + 1, top + 2, 200, 255] + [b + k for b in (256, 512, 0x4000, 0x8000, 0xFF00, 1 << 16, 1 << 17, 1 << 21, 1 << 24, 1 << 28, 1 << 31, 1 << 32, 1 << 35, 1 << 63, 1 << 64) for k in lows] \
                     + [(1 << 32) - 1, (1 << 16) - 1]
             else:
                 undeclared = [0, top + 1, top + 2, 200, 255] + [b + k for b in (256, 512, 0x4000, 0x8000, 0xFF00) for k in lows] + [0xFFFF]
